@@ -844,6 +844,7 @@ func (w *qWorld) checkStats() {
 			if sum > c.InFlightCount {
 				w.violate("C13", "client-in-flight-leak", "channel %s/%s has %d messages in flight but its connections count %d", t.TopicName, c.ChannelName, c.InFlightCount, sum)
 				w.violate("C03", "client-in-flight-leak", "channel %s/%s has %d messages in flight but its connections count %d", t.TopicName, c.ChannelName, c.InFlightCount, sum)
+				w.violate("C08", "client-in-flight-leak", "channel %s/%s has %d messages in flight but its connections count %d", t.TopicName, c.ChannelName, c.InFlightCount, sum)
 			}
 		}
 	}
